@@ -1,4 +1,4 @@
-\* one witness history for every (reachable model state, last operation) of a tiny model, up to K - 1 operations
+\* one witness history for every (reachable model state, last operation, length) of a tiny model, up to K - 1 operations
 SPECIFICATION GenSpec
 CONSTANTS
   Types = {"gpu"}
